@@ -150,12 +150,17 @@ def run(ctx):
                 'fields, dyadic and non-dyadic element sizes, integer-valued element sizes handed over as Python ints / numpy int32/int64 / mixed kinds / '
                 'mixed with floats (deterministic set: every module and plane mode in 2-D with thickness 1, 2, 3 and in 3-D), material constants as floats and '
                 'Python ints, integer-typed nodal vectors and densities (1e-9 relative; model evaluated in Q(sqrt 3), sqrt(3)-part must vanish; ElementAverage '
-                'exact for dyadic sizes); (c) malformed stream: exception class; an exception on a well-formed case is a failing input. '
+                'exact for dyadic sizes); deterministic Voigt-order set on every seed (2-D / 3-D Strain voigt True/False and Stress, non-cubic elements, affine '
+                'fields with pairwise different normal components and shear components 7, 2, 3); (c) malformed stream: exception class; an exception on a '
+                'well-formed case is a failing input; (d) histories (c12_hist.py): every module kind built on ONE domain object and evaluated round-robin '
+                '(response, sensitivity, response on a new strided / integer-typed input, Fortran-ordered seed, in-place modified input, None seed, first input '
+                'and seed again), 2-D with thickness 2, 3-D, integer sizes, + random event orders; one correspondence case per instance (hrun of Model/ElemHist.v). '
                 'non-trivial = grid with >= 2 elements; distinct by all parameters incl. dtypes/kinds')
     ctx.assumptions += ['theorems are about exact (real) arithmetic; floats are tied by exact (integer/dyadic data) or 1e-9 relative comparison',
                         '2-D Stress/ThermoMechanical include the out-of-plane thickness element_size[2] exactly as the code does (D *= element_size[2])',
                         'np.einsum / np.add.at are read as the sums they denote (order of floating additions is not modelled)',
-                        'a module instance is used with one vector size only (the cached dofconn / repeated operator of ElementOperation is history, C03)',
+                        'a module instance is used with one vector size only (hypothesis of C12_elemop_history; the implementation raises when the size of the '
+                        'nodal vector changes on an ElementOperation instance: the cached dofconn no longer fits)',
                         'the model is over values: the scalar type / dtype a size, constant, operator or vector is handed over in is explored by the generators and '
                         'the twin-domain oracle (integer sizes == equal float sizes), not modelled; single-precision element sizes are not generated']
     ctx.trusted += ['Print Assumptions: real-number theorems rely on the Coq stdlib Reals axioms (ClassicalDedekindReals.sig_forall_dec, '
